@@ -434,3 +434,60 @@ Proof.
   f_equal. f_equal. symmetry. unfold py_upper in E. rewrite pyget_map in E. destruct (pyget (data s) ix); inversion E.
   apply py_upper_idem.
 Qed.
+
+(* ---- number of pieces of split(sep, maxsplit) = min(count(sep), maxsplit) + 1 ---- *)
+Lemma cons_head_length c l : l <> [] -> length (cons_head c l) = length l.
+Proof. destruct l; [congruence|reflexivity]. Qed.
+Definition lim_min (cnt : nat) (lim : option nat) : nat := match lim with None => cnt | Some k => Nat.min cnt k end.
+Lemma split_sep_length sep : forall w skip lim,
+  length (split_sep_go sep w skip lim) = S (lim_min (count_in sep w skip) lim).
+Proof.
+  induction w as [|c r IH]; intros skip lim; cbn [split_sep_go count_in].
+  - destruct lim; reflexivity.
+  - destruct skip as [|k]; [|apply IH].
+    destruct lim as [[|n]|].
+    + cbn [lim_min length]. rewrite Nat.min_0_r. reflexivity.
+    + destruct (prefixb sep (c :: r)).
+      * cbn [length option_map pred]. rewrite IH. cbn [lim_min]. lia.
+      * rewrite cons_head_length by apply split_sep_ne. apply IH.
+    + destruct (prefixb sep (c :: r)).
+      * cbn [length option_map]. rewrite IH. reflexivity.
+      * rewrite cons_head_length by apply split_sep_ne. apply IH.
+Qed.
+Lemma py_split_count s sep ms : sep <> [] ->
+  exists l, py_split s (Some sep) ms = Ok l /\
+    Z.of_nat (length l) = match lim_of ms with
+                          | None => py_count s sep None None + 1
+                          | Some k => Z.min (py_count s sep None None) (Z.of_nat k) + 1
+                          end.
+Proof.
+  intros Hsep. unfold py_split, py_count. rewrite window_full. destruct sep as [|c sp]; [congruence|].
+  eexists. split; [reflexivity|]. rewrite split_sep_length. destruct (lim_of ms); cbn [lim_min]; lia.
+Qed.
+
+(* ---- rsplit() on white space: the mirror image ---- *)
+Lemma concat_rev_map : forall l : list str, concat (rev (map (@rev byte) l)) = rev (concat l).
+Proof.
+  induction l as [|x l IH]; [reflexivity|]. cbn [map rev concat]. rewrite concat_app, IH. cbn [concat].
+  rewrite app_nil_r, rev_app_distr. reflexivity.
+Qed.
+Lemma split_ws_spec0 (w : str) :
+  concat (split_ws_go w false None) = filter nonws w /\
+  Forall (fun p : str => p <> [] /\ forallb nonws p = true) (split_ws_go w false None).
+Proof.
+  split; [apply split_ws_concat|].
+  pose proof (split_ws_pieces w false) as H1. destruct (split_ws_nonempty w false) as [H2 _]. cbn in H2.
+  rewrite Forall_forall in *. intros p Hp. split; [apply H2|apply H1]; exact Hp.
+Qed.
+Lemma py_rsplit_ws_spec s :
+  exists l, py_rsplit s None None = Ok l /\ concat l = filter nonws s /\
+            Forall (fun p => p <> [] /\ forallb nonws p = true) l.
+Proof.
+  unfold py_rsplit, py_split, option_map. cbn [lim_of]. destruct (split_ws_spec0 (rev s)) as [Hc Hf].
+  eexists. split; [reflexivity|]. split.
+  - rewrite concat_rev_map, Hc, filter_rev, rev_involutive. reflexivity.
+  - apply Forall_forall. intros p Hp. apply in_rev in Hp. apply in_map_iff in Hp. destruct Hp as (q & <- & Hq).
+    rewrite Forall_forall in Hf. destruct (Hf q Hq) as [H1 H2]. split.
+    + intros H. apply H1. rewrite <- (rev_involutive q), H. reflexivity.
+    + rewrite forallb_rev. exact H2.
+Qed.
